@@ -58,7 +58,7 @@ pub fn run(ctx: &Ctx) {
      documents, declarative map matching with cuts), evaluated under both readings of integral JSON numbers; \
      disagreeing readings are dropped as kind_ambiguous. Non-trivial: the oracle's evaluation entered an array or map \
      with the document and touched >= 2 construct kinds of {occurrence, group choice, inline group, group ref, \
-     optional member, cut, table, control, range, rule ref, type choice}; distinct = distinct (schema text, JSON text).",
+     optional member, cut, table, control, range, rule ref, type choice}; distinct = distinct (schema text, JSON text). Sub-check small_scope: every root type of a small grammar (10 atoms and their pairs, arrays of 0-2 entries over 11 entry forms incl. inline groups and two-way group choices, maps of 0-2 members over 8 member forms) x a universe of 34 documents, exhaustively.",
   );
   ctx.assume("the oracle implements the PEG reading of arrays that the crate documents and the declarative reading of maps");
   ctx.assume("oracle_unsupported cases (constructs outside the reference fragment) are skipped and counted");
@@ -73,6 +73,19 @@ pub fn run(ctx: &Ctx) {
     }
     Ok(())
   });
+  // exhaustive small scope: every root type of a small grammar x every document of a small universe
+  let pairs: Vec<(Schema, String, CVal)> = {
+    let docs = crate::smallscope::documents(false);
+    let mut v = vec![];
+    for s in crate::smallscope::schemas(&o, false) {
+      let text = vcore::cmodel::render(&s);
+      for d in &docs {
+        v.push((s.clone(), text.clone(), d.clone()));
+      }
+    }
+    v
+  };
+  vcore::sweep(ctx, "small_scope", &pairs, |(s, text, d), st| eval_json(ctx, "small_scope", s, text, d, "sample", st, &excl));
   if survey_on() {
     survey_dump(ctx);
   }
